@@ -19,6 +19,9 @@ import (
 )
 
 func init() {
+	// the agent's own environment may already carry the variable (another instance's hook started
+	// this one, a systemd unit sets it, ...): hooks must see this store's directory nevertheless
+	os.Setenv("WHAWTY_AUTH_STORE", "/inherited/from/elsewhere") //nolint:errcheck
 	props["C19"] = &propSpec{scenarios: c19Scenarios, harness: c19Harness, modes: c19Modes}
 }
 
@@ -208,6 +211,8 @@ func rawDigest(dir string) string {
 	return sb.String()
 }
 
+// envOf: the value the started program sees (os/exec lets the last duplicate win) and the number
+// of entries for the key.
 func envOf(r *vexec.StartRec, key string) (string, int) {
 	val, n := "", 0
 	for _, e := range r.Env {
@@ -252,7 +257,7 @@ func c19Final(s *mc.Sched) []mc.Viol {
 			if r.Step >= m.step {
 				st, n := envOf(r, "WHAWTY_AUTH_STORE")
 				storeSeen = append(storeSeen, filepath.Base(st))
-				if st == m.dir && n == 1 {
+				if st == m.dir && n >= 1 {
 					ok = true
 				}
 			}
@@ -383,7 +388,7 @@ func c19Eligibility(sc *scenario) mc.Harness {
 				if filepath.Dir(r.Path) != hdir {
 					v = append(v, mc.Viol{Key: "hook-outside-directory", Desc: r.Path})
 				}
-				if st, n := envOf(r, "WHAWTY_AUTH_STORE"); st != "/the/store" || n != 1 || len(r.Args) != 2 || r.Args[1] != "update" {
+				if st, n := envOf(r, "WHAWTY_AUTH_STORE"); st != "/the/store" || n < 1 || len(r.Args) != 2 || r.Args[1] != "update" {
 					v = append(v, mc.Viol{Key: "hook-arguments", Desc: fmt.Sprintf("%v env store=%q", r.Args, st)})
 				}
 			}
